@@ -407,44 +407,7 @@ func c09(r *core.Report) {
 	// part counts / indexes are written into 8- and 16-bit header fields: the narrowing
 	// conversion must be dominated by a range check (difference-bound prover, shared with C08)
 	r.Rule("C09-NARROW", "part counts and indexes are narrowed to the header field width only under a range guard", 4)
-	{
-		bd := core.NewBounds(p)
-		for _, site := range []struct{ rel, fn string }{{"s/fragswarm", "swarm.Tell"}, {"p/mbapp", "Swarm.send"}} {
-			root := needFn(r, site.rel, site.fn)
-			if root == nil {
-				continue
-			}
-			for _, fn := range core.WithAnons(root) {
-				for _, in := range core.AllInstrs(fn) {
-					cv, ok := in.(*ssa.Convert)
-					if !ok {
-						continue
-					}
-					tb, isB := cv.Type().Underlying().(*types.Basic)
-					sb, isS := cv.X.Type().Underlying().(*types.Basic)
-					if !isB || !isS || sb.Kind() != types.Int {
-						continue
-					}
-					var max int64
-					switch tb.Kind() {
-					case types.Uint8:
-						max = 255
-					case types.Uint16:
-						max = 65535
-					default:
-						continue
-					}
-					if _, isK := core.ConstInt(cv.X); isK {
-						continue
-					}
-					c := fmt.Sprintf("%s %s(%s)", core.FnName(fn), tb.Name(), narrowName(cv.X))
-					ok2 := bd.ProveAtMost(in, cv.X, max) // (a negative count arises only from an inner MTU below the header size: configuration error)
-					r.Check(ok2, "C09-NARROW", c, p.Pos(in.Pos()), fmt.Sprintf("value <= %d follows from dominating checks", max),
-						fmt.Sprintf("a part count/index derived from the payload size is narrowed to %s with no range guard: a payload within MTU() that needs more than %d parts is sent with a wrapped header field and reassembled wrongly or never", tb.Name(), max))
-				}
-			}
-		}
-	}
+	ruleNarrow(r, "C09-NARROW")
 
 	// ---- C09-PARTCOUNT: MTU() promises limit * partSize bytes; that holds only if the number of
 	// parts is exactly ceil(size / partSize) — one part too many and a payload of MTU() bytes is refused
@@ -529,6 +492,45 @@ func c09(r *core.Report) {
 				if ok && core.CalleeName(cc.Common()) == "io.ReadAll" && core.DerivesFromDirect(cc.Call.Args[0], func(x ssa.Value) bool { return x == ssa.Value(lim) }) {
 					reads = append(reads, cc)
 				}
+			}
+			// a limit placed on a FRAMED read (length prefix read with binary.Read, then the body) counts the prefix
+			// too: it has to leave room for the largest body the function accepts plus the prefix, or a frame
+			// whose body is within the last few bytes of MTU() is cut short and refused
+			for _, in := range core.AllInstrs(fn) {
+				br, ok := in.(*ssa.Call)
+				if !ok || core.CalleeName(br.Common()) != "encoding/binary.Read" || !core.DerivesFromDirect(br.Call.Args[0], func(x ssa.Value) bool { return x == ssa.Value(lim) }) {
+					continue
+				}
+				prefix := int64(0)
+				if mi, isMI := br.Call.Args[2].(*ssa.MakeInterface); isMI {
+					if pt, isPtr := mi.X.Type().Underlying().(*types.Pointer); isPtr {
+						if bt, isB := pt.Elem().Underlying().(*types.Basic); isB {
+							prefix = map[types.BasicKind]int64{types.Uint8: 1, types.Uint16: 2, types.Uint32: 4, types.Uint64: 8, types.Int32: 4, types.Int64: 8}[bt.Kind()]
+						}
+					}
+				}
+				// the largest body accepted: the right-hand side of `int(l) > maxLen`
+				var maxBody ssa.Value
+				for _, i2 := range core.AllInstrs(fn) {
+					b, isB := i2.(*ssa.BinOp)
+					if !isB || b.Op != token.GTR {
+						continue
+					}
+					if _, isConv := b.X.(*ssa.Convert); isConv {
+						if prm, isPrm := core.Through(b.Y).(*ssa.Parameter); isPrm {
+							maxBody = prm
+						}
+					}
+				}
+				c := core.FnName(fn) + " limit on framed read"
+				if prefix == 0 || maxBody == nil {
+					r.Undecided("C09-RECV-LIMIT", c, p.Pos(lim.Pos()), "a byte limit is placed on a framed read but the prefix width or the accepted body size could not be identified")
+					continue
+				}
+				bd := core.NewBounds(p)
+				r.Check(bd.ProveDiffAtMost(lim, maxBody, lim.Call.Args[1], -prefix), "C09-RECV-LIMIT", c, p.Pos(lim.Pos()),
+					fmt.Sprintf("the limit is at least the accepted body size plus the %d-byte length prefix", prefix),
+					fmt.Sprintf("the byte limit on the framed read is not provably the accepted body size plus the %d-byte length prefix: a frame whose body is within %d bytes of MTU() passes the sender's check and is cut short by the reader, so an Ask of exactly MTU() bytes fails", prefix, prefix))
 			}
 			for _, rd := range reads {
 				// deliveries of that data must be guarded by a length comparison on it
@@ -673,4 +675,51 @@ func isCeilDiv(v ssa.Value, depth int) (bool, string) {
 		return false, "the increment's test is not a remainder test"
 	}
 	return false, "not a division followed by a conditional increment"
+}
+
+// ruleNarrow: part counts / indexes are written into 8- and 16-bit header fields: the narrowing conversion
+// must be dominated by a range check (difference-bound prover). Shared by C09 (a payload within MTU() is
+// deliverable) and C10 (a wrapped part count makes the receiver deliver a fragment, or a zero-filled
+// buffer, as the whole message).
+func ruleNarrow(r *core.Report, ruleID string) {
+	p := r.P
+	{
+		bd := core.NewBounds(p)
+		for _, site := range []struct{ rel, fn string }{{"s/fragswarm", "swarm.Tell"}, {"p/mbapp", "Swarm.send"}} {
+			root := needFn(r, site.rel, site.fn)
+			if root == nil {
+				continue
+			}
+			for _, fn := range core.WithAnons(root) {
+				for _, in := range core.AllInstrs(fn) {
+					cv, ok := in.(*ssa.Convert)
+					if !ok {
+						continue
+					}
+					tb, isB := cv.Type().Underlying().(*types.Basic)
+					sb, isS := cv.X.Type().Underlying().(*types.Basic)
+					if !isB || !isS || sb.Kind() != types.Int {
+						continue
+					}
+					var max int64
+					switch tb.Kind() {
+					case types.Uint8:
+						max = 255
+					case types.Uint16:
+						max = 65535
+					default:
+						continue
+					}
+					if _, isK := core.ConstInt(cv.X); isK {
+						continue
+					}
+					c := fmt.Sprintf("%s %s(%s)", core.FnName(fn), tb.Name(), narrowName(cv.X))
+					ok2 := bd.ProveAtMost(in, cv.X, max) // (a negative count arises only from an inner MTU below the header size: configuration error)
+					r.Check(ok2, ruleID, c, p.Pos(in.Pos()), fmt.Sprintf("value <= %d follows from dominating checks", max),
+						fmt.Sprintf("a part count/index derived from the payload size is narrowed to %s with no range guard: a payload within MTU() that needs more than %d parts is sent with a wrapped header field and reassembled wrongly or never", tb.Name(), max))
+				}
+			}
+		}
+	}
+
 }
